@@ -36,6 +36,8 @@ MC_INV = ["OneValuePerEdge", "OneValuePerNode", "RelabellingEquivariance", "Grap
 # bipartite projection are "N<i>" / "E<i>": node labels must not be confused with them)
 FAMILIES = dict(LABEL_FAMILIES)
 FAMILIES["strE"] = lambda n: ["dE", "a", "Eve", "c", "E", "fE1", "b"][:n]
+# grid coordinates: labels that are tuples themselves (comparable, hashable), as hyperedges are
+FAMILIES["tup"] = lambda n: [(0, 1), (1, 0), (0, 0), (2, 1), (1, 1), (2, 2), (0, 2), (1, 2)][:n]
 
 
 @contextlib.contextmanager
@@ -157,9 +159,14 @@ def observe_static(b, obj, ss, eigen_seeds, node_fns=True):
         case["nkeys"].append({"fn": name, "keys": keys})
         log["node"].append({"fn": name, "values": {k: float(x) for k, x in zip(keys, v.values())}})
     # sub-hypergraph centrality, through the library's own node mapping
-    v, err, _ = call(subhypergraph_centrality, obj)
-    m, err2, _ = call(obj.adjacency_matrix, return_mapping=True)
-    if err or err2:
+    # (labels that are tuples cannot pass that mapping - a LabelEncoder over a 1-d array of labels - anywhere in the library:
+    # not demanded, DESIGN section 5; the s-centralities do not use the mapping and are demanded for them)
+    tuple_labels = any(isinstance(x, tuple) for x in b.labels)
+    v, err, _ = (None, None, None) if tuple_labels else call(subhypergraph_centrality, obj)
+    m, err2, _ = (None, None, None) if tuple_labels else call(obj.adjacency_matrix, return_mapping=True)
+    if tuple_labels:
+        pass
+    elif err or err2:
         log["errors"].append(["subhypergraph_centrality", 0, err or err2])
     else:
         arr = np.asarray(v, dtype=float).ravel()
@@ -430,7 +437,7 @@ ASSUMPTIONS = (
 def static_specs(tier, seed, rng):
     quick = tier == "quick"
     specs = []
-    fams = ("ident", "sparse", "str", "strE", "zero")
+    fams = ("ident", "sparse", "str", "strE", "zero", "tup")
 
     def add(n, es, labelings, eigen_seeds=None, prev=None):
         i = len(specs)
@@ -444,7 +451,7 @@ def static_specs(tier, seed, rng):
     e3 = [e for z in (1, 2, 3) for e in itertools.combinations((1, 2, 3), z)]
     masks = list(range(1 << len(e3)))
     for j, mask in enumerate(rng.sample(masks, 40) if quick else masks):
-        add(3, [e3[x] for x in range(len(e3)) if mask >> x & 1], [FAMILIES[fams[j % 5]](3)])
+        add(3, [e3[x] for x in range(len(e3)) if mask >> x & 1], [FAMILIES[fams[j % len(fams)]](3)])
     for i in range(1000 if quick else 4500):
         n = rng.choice([4, 5, 5, 6, 6, 7])
         f1, f2 = rng.sample(fams, 2)
